@@ -108,6 +108,26 @@ def boundary_cases(vidx=0):
             add('ctor,two-substances-at-capacity', EMPTY, [],
                 {'op': 'new_container', 'name': 'N', 'max': spell[0],
                  'contents': [['water', f"{_num(a)} mL"], ['dmso', f"{_num(b)} mL"]]}, 'accept')
+    # 1b. decimal capacities whose conversion to the storage unit is not exact in binary (7.7 uL, 15.4 uL, 32.3 mL ...): every
+    # tenth of a microlitre up to 50 uL and every tenth of a millilitre from 5.1 to 50 mL, the vessel filled with exactly what its
+    # capacity says - at construction (same and another spelling), by fill_to and by a transfer
+    FILLER = {'S': ('container', 'inf L', [('water', '200 mL')])}
+    for i in range(1, 501):
+        for unit, alt, k in (('uL', 'mL', 1000), ('mL', 'L', 1000)):
+            if unit == 'mL' and i <= 50:
+                continue
+            x = i / 10
+            cap = f"{_num(x)} {unit}"
+            other = f"{_num(x / k)} {alt}"
+            add('ctor,at-capacity,decimal', EMPTY, [], {'op': 'new_container', 'name': 'N', 'max': cap,
+                                                          'contents': [['water', cap]]}, 'accept')
+            if i % 3 == 0:
+                add('ctor,at-capacity,decimal', EMPTY, [], {'op': 'new_container', 'name': 'N', 'max': cap,
+                                                              'contents': [['water', other]]}, 'accept')
+            if i % 5 == 2:
+                spec = dict(FILLER, N=('container', cap, []))
+                add('fill_to,at-capacity,decimal', spec, [], {'op': 'fill_to', 'obj': 'N', 'solvent': 'water', 'q': cap}, 'accept')
+                add('transfer,at-capacity,decimal', spec, [], T('S', 'N', cap), 'accept')
     # 2. transfer: over-draw in every unit, whole content, negative, zero, empty source
     W = {'S': ('container', 'inf L', [('water', '4 mL'), ('dmso', '1 mL'), ('nacl', '1 mmol'), ('lipase', '3 U')]),
          'D': ('container', 'inf L', [('tea', '1 mL')]),
@@ -489,10 +509,14 @@ def run(col):
                 "C01 geometry/unit sweeps and C01's 48-action history alphabet to depth 3 / 4; (b) boundary enumeration: for every operation and feasibility constraint the "
                 "requests below / at / above the boundary, directly and as a recipe step, classified must-accept / "
                 "must-refuse(ValueError) / don't-care; (c) the same sanity judgement on every object handed out by the bake "
-                "of every recipe program over the E2 vocabulary, depth 2 (quick) / 3 (thorough). Non-trivial = distinct (feature, outcome) classes")
+                "of every recipe program over the E2 vocabulary, depth 2 (quick) / 3 (thorough); (d) 47 two-step recipes whose second step "
+                "(fill_to in mL / g / mmol) fits only on the vessel as the first step left it, and dilutions of one liquid with another: the recipe "
+                "accepts / refuses what the container operations accept / refuse. Non-trivial = distinct (feature, outcome) classes")
     col.assumptions += ["'at the boundary' is must-accept only where the boundary is an exact decimal of the request",
                         "a refused request may be refused with any ValueError subclass (numpy LinAlgError is one)"]
     boundaries(col, pp)
+    _G.update(pp=pp)
+    prechecks(col, pp)
     vals = [col.seed % 3] if col.tier == 'quick' else [0, 1, 2]
     for v in vals:
         e1.Explorer(pp, v, e1.W_DEFAULT, e1.seed_history_P(), full_alphabet(), MONS, 'F').run(
@@ -515,8 +539,120 @@ def run(col):
         recipe_programs(col, pp, v, 2 if col.tier == 'quick' else 3)
 
 
+# ---- (d) the recipe's own pre-checks: a step is judged on the vessel as the earlier steps of the recipe leave it -------------------
+def precheck_cases():
+    import itertools
+    for lower, unit, where in itertools.product(('transfer-volume', 'transfer-mass', 'remove'), ('mL', 'g', 'mmol'),
+                                                ('between', 'above-declared', 'below-current')):
+        yield {'kind': 'fill_to-after-lowering', 'lower': lower, 'unit': unit, 'where': where}
+    for solute, solvent in (('water', 'dmso'), ('dmso', 'water'), ('water', 'tea'), ('tea', 'water'), ('dmso', 'tea')):
+        for cu in ('M', 'g/L', 'm', 'mol/mol'):
+            yield {'kind': 'dilute-liquid-with-liquid', 'solute': solute, 'solvent': solvent, 'cu': cu}
+
+
+def run_precheck(pc, vidx):
+    """Two-step recipes whose second step fits only on the vessel as the first step left it (never on the declared one), and
+    dilutions of one liquid with another: the recipe must accept what the container operations accept, refuse what they refuse."""
+    from .. import ref
+    from . import C05
+    pp = _G.get('pp') or env.load()
+    subs = e1.substances(pp, vidx)
+    C = pp.Container
+    case = {'vidx': vidx, 'precheck': pc}
+    water, dmso = subs['water'], subs['dmso']
+    if pc['kind'] == 'fill_to-after-lowering':
+        S = C('S', '20 mL', [(water, '6 mL'), (dmso, '2 mL'), (subs['nacl'], '1 mmol')])
+        D = C('D', '20 mL')
+        if pc['lower'] == 'remove':
+            eager = lambda s, d: (s.remove(dmso), d)                                  # noqa
+            add = lambda r: r.remove(S, dmso)                                         # noqa
+        else:
+            q = '5 mL' if pc['lower'] == 'transfer-volume' else '4.5 g'
+            eager = lambda s, d: C.transfer(s, d, q)                                  # noqa
+            add = lambda r: r.transfer(S, D, q)                                       # noqa
+        S1, _ = eager(S, D)
+        pf, base = ref.split_unit(pc['unit'])
+        cur, decl = ref.measure(pp, S1.contents, base) / pf, ref.measure(pp, S.contents, base) / pf
+        target = {'between': (cur + decl) / 2, 'above-declared': decl * 5 / 4, 'below-current': cur * 9 / 10}[pc['where']]
+        qstr = C05.fmt(target, pc['unit'])
+        second_eager = lambda s: s.fill_to(water, qstr)                               # noqa
+        second_add = lambda r: r.fill_to(S, water, qstr)                              # noqa
+        desc = f"recipe [{pc['lower']} out of S ; S.fill_to(water, {qstr!r})] (S holds {float(decl):.6g} {pc['unit']} when declared, {float(cur):.6g} after the first step)"
+        feat = f"fill_to,after={pc['lower']},unit={base},target={pc['where']}"
+        label = 'Recipe.fill_to'
+    else:
+        solute, solvent = subs[pc['solute']], subs[pc['solvent']]
+        S = C('S', 'inf L', [(solute, '5 mL'), (solvent, '5 mL')])
+        S1 = S
+        add = None
+        mult, num, den = ref.parse_concentration('1 ' + pc['cu'])
+        cstr = C05.conc_str(ref.conc(pp, S.contents, solute, num, den) * 7 / 10, pc['cu'])
+        second_eager = lambda s: s.dilute(solute, cstr, solvent)                      # noqa
+        second_add = lambda r: r.dilute(S, solute, cstr, solvent)                     # noqa
+        desc = f"recipe [S.dilute({pc['solute']}, {cstr!r}, {pc['solvent']})] on equal volumes of the two liquids (0.7 of the current value)"
+        feat = f"dilute,solute={pc['solute']},solvent={pc['solvent']},unit={num}/{den}"
+        label = 'Recipe.dilute'
+    try:
+        want = second_eager(S1)
+        eager_outcome = 'returns'
+    except ValueError:
+        want, eager_outcome = None, 'ValueError'
+    r = pp.Recipe()
+    if add and pc['lower'] != 'remove':
+        r.uses(S, D)
+    else:
+        r.uses(S)
+    try:
+        if add:
+            add(r)
+        second_add(r)
+        got = r.bake()['S']
+        outcome = 'returns'
+    except ValueError as e:
+        got, outcome = None, 'ValueError'
+        msg = str(e)
+    except Exception as e:  # noqa
+        return [V(f"{label} | wrong-exception | precheck,{feat}", f"{desc} raised {type(e).__name__}: {e}", case)], (feat, type(e).__name__)
+    if outcome != eager_outcome:
+        if outcome == 'ValueError':
+            return [V(f"{label} | refused-feasible | precheck,{feat}", f"{desc}: the container operations accept it, the recipe raised "
+                      f"ValueError ({msg})", case, 'returns', 'ValueError')], (feat, outcome)
+        return [V(f"{label} | accepted-infeasible | precheck,{feat}", f"{desc}: the container operation refuses it, the recipe returned",
+                  case, 'ValueError', 'returns')], (feat, outcome)
+    if got is not None:
+        bad = monitors.sane_container(pp, got)
+        if bad:
+            return [V(f"{label} | impossible-result | precheck,{feat}", f"{desc}: bake returned S with {bad}", case)], (feat, 'bad')
+        if e1.exact_obj(got) != e1.exact_obj(want) and any(
+                abs(got.contents.get(k, 0.0) - want.contents.get(k, 0.0)) > 1e-9 * abs(want.contents.get(k, 0.0)) + 1e-9
+                for k in set(got.contents) | set(want.contents)):
+            return [V(f"{label} | differs-from-container-operation | precheck,{feat}", f"{desc}: bake returned other contents than the "
+                      f"container operations", case)], (feat, 'differs')
+    return [], (feat, outcome)
+
+
+def prechecks(col, pp):
+    vals = [col.seed % 3] if col.tier == 'quick' else [0, 1, 2]
+    classes, n = set(), 0
+    for v in vals:
+        for pc in precheck_cases():
+            vs, cls = run_precheck(pc, v)
+            col.add(vs)
+            classes.add(cls)
+            n += 1
+    col.count('transitions', n)
+    col.count('traces', n)
+    col.count('evaluations', n)
+    col.note_nontrivial({report.digest(('D', c)) for c in classes})
+    col.cov['recipe_prechecks'] = {'cases': n, 'classes': len(classes),
+                                   'accepted': sum(c[1] == 'returns' for c in classes), 'refused': sum(c[1] == 'ValueError' for c in classes)}
+
+
 def replay(case):
     pp = env.load()
+    if 'precheck' in case:
+        _G.update(pp=pp)
+        return run_precheck(case['precheck'], case['vidx'])[0]
     if 'program' in case:
         return replay_program(pp, case)
     if 'case' in case and 'feature' in case.get('case', {}):
